@@ -27,6 +27,12 @@ def make(i, tier):
     rng = random.Random(seed)
     cfg = E.swarm_config(rng, POLICIES, ttls=(600, 3600), max_nodes=1, transports=("asyncio", "asyncio", "blocking"))
     scn, models, skipped = E.gen_multi(rng, FAMILIES, tier, 4, cfg)
+    for ex in scn["executions"]:
+        # some executions are started the "low-level" way: a client publishes the start event to the shared queue,
+        # with or without an AMQP message id of its own
+        r = rng.random()
+        if r < 0.2:
+            ex["via"] = "raw" if r < 0.1 else "raw-noid"
     if rng.random() < 0.15:
         # a Task whose function has no queue: the mandatory request comes back as Basic.Return - not a delivery, so
         # nothing may be acknowledged for it - and fails the Task (caught here), beside the other executions
